@@ -262,8 +262,12 @@ pub fn run_case(c: &Case, out: &mut String, st: &mut Stats, snapshots: bool) -> 
                         stop = true;
                     }
                     let bufcaps: Vec<usize> = slots.iter().map(|s| s.buf_capacity()).collect();
+                    let setlens: Vec<usize> = slots.iter().map(|s| s.len()).collect();
+                    let setempty: Vec<bool> = slots.iter().map(|s| s.is_empty()).collect();
                     ev.push_str(&format!(
-                        "{{\"ev\":\"call\",\"op\":\"{}\",\"slot\":{},\"n\":{},\"to\":[],\"res\":{},\"pos\":{},\"io\":{},\"grow\":{},\"cap\":{},\"alloc\":{},\"sets\":{},\"sets_panic\":{},\"setcap\":{:?}",
+                        "{{\"ev\":\"call\",\"setlens\":{:?},\"setempty\":{:?},\"op\":\"{}\",\"slot\":{},\"n\":{},\"to\":[],\"res\":{},\"pos\":{},\"io\":{},\"grow\":{},\"cap\":{},\"alloc\":{},\"sets\":{},\"sets_panic\":{},\"setcap\":{:?}",
+                        setlens,
+                        setempty,
                         if n > 0 { "exact" } else { "set" },
                         s + 1,
                         n,
@@ -351,6 +355,32 @@ pub fn run_case(c: &Case, out: &mut String, st: &mut Stats, snapshots: bool) -> 
                         pos_json(pos_of(rdr)),
                         snap_cap(rdr),
                         p.json()
+                    ));
+                }
+                Op::Shrink(s) => {
+                    let s = s % slots.len();
+                    was_rec = true;
+                    let before = slots[s].buf_capacity();
+                    slots[s].shrink_buffer_to_fit();
+                    let (sets, sp) = sets_json(&slots, c.views);
+                    if sp {
+                        st.panics += 1;
+                        stop = true;
+                    }
+                    let bufcaps: Vec<usize> = slots.iter().map(|s| s.buf_capacity()).collect();
+                    let setlens: Vec<usize> = slots.iter().map(|s| s.len()).collect();
+                    let setempty: Vec<bool> = slots.iter().map(|s| s.is_empty()).collect();
+                    ev.push_str(&format!(
+                        "{{\"ev\":\"call\",\"setlens\":{:?},\"setempty\":{:?},\"op\":\"shrink\",\"slot\":{},\"n\":{},\"to\":[],\"res\":{{\"k\":\"ok\"}},\"pos\":{},\"io\":[],\"grow\":[],\"cap\":{},\"alloc\":-1,\"sets\":{},\"sets_panic\":{},\"setcap\":{:?}}}\n",
+                        setlens,
+                        setempty,
+                        s + 1,
+                        before,
+                        pos_json(pos_of(rdr)),
+                        snap_cap(rdr),
+                        sets,
+                        sp,
+                        bufcaps
                     ));
                 }
                 Op::Serde(s) => {
